@@ -449,6 +449,147 @@ def refusing_worker(job):
     return acc
 
 
+# ------------------------------------------------------------------ (b3) applications written in the other documented forms
+def _flavoured(flavour):
+    """An application SFTPServer that behaves exactly like the stock one but is written differently: methods as
+    coroutines, stat results handed back as os.stat_result (what the stock methods return) or as SFTPAttrs."""
+    import inspect
+    ns = {}
+    stats = ('stat', 'lstat', 'fstat')
+
+    def wrap_async(name, to_attrs):
+        async def method(self, *a, **kw):
+            r = getattr(SFTPServer, name)(self, *a, **kw)
+            if inspect.isawaitable(r):
+                r = await r
+            if to_attrs and isinstance(r, os.stat_result):
+                r = asyncssh.SFTPAttrs.from_local(r)
+            return r
+        method.__name__ = name
+        return method
+
+    def wrap_sync_attrs(name):
+        def method(self, *a, **kw):
+            r = getattr(SFTPServer, name)(self, *a, **kw)
+            return asyncssh.SFTPAttrs.from_local(r) if isinstance(r, os.stat_result) else r
+        method.__name__ = name
+        return method
+    if flavour == 'async-stat':
+        for n in stats:
+            ns[n] = wrap_async(n, False)
+    elif flavour == 'async-attrs-stat':
+        for n in stats:
+            ns[n] = wrap_async(n, True)
+    elif flavour == 'attrs-stat':
+        for n in stats:
+            ns[n] = wrap_sync_attrs(n)
+    elif flavour == 'async-all':
+        for n in APP_METHODS:
+            if n == 'scandir' or inspect.isasyncgenfunction(getattr(SFTPServer, n, None)) or not hasattr(SFTPServer, n):
+                continue
+            ns[n] = wrap_async(n, False)
+    elif flavour.startswith('async-one:'):
+        n = flavour.split(':')[1]
+        ns[n] = wrap_async(n, False)
+    elif flavour == 'listdir-hook':
+        # the legacy directory hook: names only; attributes then come from lstat
+        def listdir(self, path):
+            return sorted(os.listdir(self.map_path(path))) if hasattr(self, 'map_path') else []
+        ns['listdir'] = listdir
+        ns['lstat'] = wrap_async('lstat', False)
+    return type('App_' + flavour.replace('-', '_').replace(':', '_'), (SFTPServer,), ns)
+
+
+def _reply_norm(v, p):
+    """a reply with what two runs on freshly made trees cannot share taken out: times, inode change counters,
+    free-space figures, handle values"""
+    t = p[0]
+    pk = SSHPacket(p[5:])
+    try:
+        def attrs(a):
+            d = {k: getattr(a, k, None) for k in ('type', 'size', 'alloc_size', 'uid', 'gid', 'owner', 'group', 'permissions', 'nlink', 'extended')}
+            d['times-present'] = tuple(getattr(a, k, None) is not None for k in ('atime', 'crtime', 'mtime', 'ctime'))
+            return tuple(sorted((k, repr(x)) for k, x in d.items()))
+        if t == 101:
+            return (t, pk.get_uint32())
+        if t == 102:
+            return (t,)
+        if t == 103:
+            data = pk.get_string()
+            return (t, data, pk.get_boolean() if pk and v >= 6 else None)
+        if t == 104:
+            n = pk.get_uint32()
+            out = []
+            for _ in range(n):
+                nm = SFTPName.decode(pk, v)
+                out.append((nm.filename, attrs(nm.attrs)))
+            return (t, tuple(sorted(out)), pk.get_boolean() if pk and v >= 6 else None)
+        if t == 105:
+            return (t, attrs(SFTPAttrs.decode(pk, v)))
+        return (t, len(p))
+    except Exception as exc:        # pylint: disable=broad-except
+        return (t, 'undecodable', repr(exc))
+
+
+def flavour_worker(job):
+    """every request of the version's script against the stock server and against the same server written in
+    another documented form: the replies must be the same (times, free-space figures and handle values apart; READDIR under the names-only hook:
+    every name still answered with attributes, no error status)"""
+    v, flavours = job
+    acc = core.Acc()
+    root = os.path.join(SCRATCH, 'flav-%d' % os.getpid())
+    reqs = requests(v)
+    names = [n for n in reqs if not n.startswith('type') and n not in ('x-unknown', 'close')] + ['close']
+    script = [(reqs[n][0], 300 + i, reqs[n][1]) for i, n in enumerate(names)]
+    # the tail of the file (v6 READ works out the end-of-file flag through fstat) and the directory listing
+    extra = []
+    if 'read' in reqs:
+        extra.append(('read-tail', 5, s('@FILE@') + struct.pack('>Q', 8) + u32(100)))
+    script += [(t, 600 + i, b) for i, (_n, t, b) in enumerate(extra)]
+    _mkroot(root)
+    os.utime(os.path.join(root, 'f'), (1_600_000_000, 1_600_000_000))
+    base, _h, _e, _x = server_session(v, root, SFTPServer, script)
+    base_by_id = {struct.unpack('>I', p[1:5])[0]: p for p in base}
+    for fl in flavours:
+        _mkroot(root)
+        os.utime(os.path.join(root, 'f'), (1_600_000_000, 1_600_000_000))
+        try:
+            replies, _h, ended, lexc = server_session(v, root, _flavoured(fl), script)
+        except Livelock as e:
+            acc.violation('serve:livelock:v%d:flavour-%s' % (v, fl), str(e), {'kind': 'flavour', 'v': v, 'fl': fl})
+            continue
+        viol = []
+        by_id = {}
+        for p in replies:
+            by_id.setdefault(struct.unpack('>I', p[1:5])[0], []).append(p)
+        allnames = names + [n for n, _t, _b in extra]
+        ids = [300 + i for i in range(len(names))] + [600 + i for i in range(len(extra))]
+        for rid, n in zip(ids, allnames):
+            rs = by_id.get(rid, [])
+            b = base_by_id.get(rid)
+            if len(rs) != 1:
+                viol.append(('reply-count', 'request %s got %d replies' % (n, len(rs))))
+            elif fl == 'listdir-hook' and n == 'readdir':
+                if rs[0][0] != 104 or not reply_well_typed(v, rs[0]):
+                    viol.append(('reply-differs', 'READDIR under the names-only hook answered with type %d %s' % (rs[0][0], rs[0][5:60])))
+            elif b is not None and _reply_norm(v, rs[0]) != _reply_norm(v, b):
+                viol.append(('reply-differs', 'request %s: stock server answers type %d %s, the application written as %s answers type %d %s'
+                             % (n, b[0], b[5:45].hex(), fl, rs[0][0], rs[0][5:45] if rs[0][0] == 101 else rs[0][5:45].hex())))
+        if lexc:
+            viol.append(('loop-exception', repr(lexc[0].get('exception') or lexc[0].get('message'))[:200]))
+        acc.add(core.digest((v, fl, tuple(sorted((k, x[0][:1]) for k, x in by_id.items())))), transitions=len(script),
+                sample={'version': v, 'application_written_as': fl} if fl == 'async-stat' else None)
+        for k, d in viol[:6]:
+            acc.violation('serve:%s:v%d:flavour-%s' % (k, v, fl), d, {'kind': 'flavour', 'v': v, 'fl': fl})
+    shutil.rmtree(root, ignore_errors=True)
+    return acc
+
+
+def flavour_jobs():
+    fls = ['async-stat', 'async-attrs-stat', 'attrs-stat', 'async-all', 'listdir-hook'] + ['async-one:%s' % m for m in APP_METHODS if m not in ('scandir', 'open56')]
+    return [(v, fls[i::4]) for v in (3, 4, 5, 6) for i in range(4)]
+
+
 def _mkroot(root):
     shutil.rmtree(root, ignore_errors=True)
     os.makedirs(os.path.join(root, 'd'))
@@ -810,6 +951,7 @@ def main(tier, seed):
     acc.merge(core.pmap(server_worker, core.rotate(sj, seed)))
     acc.merge(core.pmap(errmap_worker, [3, 4, 5, 6]))
     acc.merge(core.pmap(refusing_worker, [(v, APP_METHODS[i::4]) for v in (3, 4, 5, 6) for i in range(4)]))
+    acc.merge(core.pmap(flavour_worker, flavour_jobs()))
     n_b = acc.evaluations - n_a
     cj = []
     for v, fields in ((3, V3_FIELDS), (4, V4_FIELDS), (5, V5_FIELDS), (6, V6_FIELDS)):
@@ -827,7 +969,9 @@ def main(tier, seed):
             '3-6 x every request type/extension x well-formed, every truncation, trailing byte, then a probe '
             'request; error mapping for 16 errno values and 19 SFTPError classes per version; an application that '
             'refuses or fails each of 26 methods in turn (every reply parses as its own type, the refused request '
-            'gets STATUS with the mapped code); (c) attribute codecs '
+            'gets STATUS with the mapped code); the stock application rewritten in the other documented forms (each method, '
+            'or all, as coroutines; stat results as os.stat_result or SFTPAttrs, returned or awaited; the names-only listdir hook): '
+            'replies equal the stock server\'s (times and free-space figures apart); (c) attribute codecs '
             'for every subset of 5 (v3), 9 (v4), 10 (v5), 16 (v6) field groups incl. independent layout encoders; '
             'every file type x every sequence of <= 3 versions encoded from one object (no mutation, no history); '
             'every subset of present times x every subset of them carrying nanoseconds'
@@ -850,6 +994,9 @@ def replay(rep):
         print(json.dumps(v[:4], indent=1, default=repr))
     elif r['kind'] == 'refusing':
         v = refusing_worker((r['v'], [r['m']])).violations
+        print(json.dumps(v[:4], indent=1, default=repr))
+    elif r['kind'] == 'flavour':
+        v = flavour_worker((r['v'], [r['fl']])).violations
         print(json.dumps(v[:4], indent=1, default=repr))
     elif r['kind'] == 'errmap':
         v = errmap_worker(r['v']).violations
